@@ -7,7 +7,7 @@
    (next, body, fails, isnil, maxdepth), all programs (any number of goroutines, any
    operations) and ALL schedules. *)
 From Coq Require Import List Arith Bool.
-From GoPdf.C18 Require Import Cache CacheLemmas CacheInv CacheExcl CacheOnce CacheCount CacheLive CacheTypes CacheRank CachePair CacheSeq CacheProv CacheThm CacheExamples Pool.
+From GoPdf.C18 Require Import Cache CacheLemmas CacheInv CacheExcl CacheOnce CacheCount CacheLive CacheWait CacheTypes CacheRank CachePair CacheSeq CacheProv CacheThm CacheExamples Pool.
 Import ListNotations.
 
 (* ---- agree: all calls for one object and type return one value ---- *)
@@ -172,6 +172,23 @@ Theorem no_deadlock_ranked :
   exists tid s', step next body fails isnil maxdepth store_or_load s tid = Some s'.
 Proof. exact no_deadlock_ranked_thm. Qed.
 Print Assumptions no_deadlock_ranked.
+
+(* plain Decode is wait-free: in ANY state (no hypothesis), a goroutine inside a Decode call - cache probe,
+   Get, decode function, store-or-load; also the inner call of a DecodeExclusive - can step, and the step does
+   not leave it blocked.  A goroutine blocks only before `<-p.done`, reached only from the first critical
+   section of DecodeExclusive.  Hence [ranked] constrains plain Decodes in decode functions only by
+   monotonicity (<=): cycles of plain Decodes (mutually referential objects) are covered with a constant rank *)
+Theorem decode_wait_free :
+  forall next body fails isnil maxdepth tid s th,
+  in_decode (tpc th) ->
+  status s th = 1 /\
+  exists s' th', step_thread next body fails isnil maxdepth store_or_load tid s th = Some (s', th') /\
+                 status s' th' <> 2.
+Proof. exact decode_wait_free_thm. Qed.
+Print Assumptions decode_wait_free.
+
+Example hyp_ranked_mutual_plain_decode : ranked nonext body_mutual (fun _ _ => 0).
+Proof. exact mutual_plain_decode_is_ranked. Qed.
 
 (* the cross-type programs of the harness (the decoder of (1,T0) exclusively decodes reference 1 as T1) and
    the pages+form shape satisfy the condition; a cyclic dependency admits no rank - and deadlocks *)
